@@ -14,6 +14,16 @@ CHECKS = {
               "exactly; every table row and every predicted basis image is then replayed into the real functions in a float64 and a "
               "float32 session. By linearity the basis images fix fft/ifft/get_fourier_coefficients for every state on those grids."),
         note="TLC/SANY, the dump parser, numpy evaluation of cos on the grid; tolerance 1e-10 (x64) / 3e-5 (f32) relative to N^D*a"),
+    "C14": dict(
+        category="model_checking", design_ref="4/C14", engine="rollout",
+        technique="TLC state machine of rollout/repeat/windows (MC_Rollout) + replay of every terminal state + TLC trace validation (Trace_Rollout) of recorded executions",
+        text=("MC_Rollout is the scan machine of rollout/repeat/stack_sub_trajectories over an injective integer bookkeeping stepper; TLC checks "
+              "for every configuration (n, include_init, takes_aux, constant_aux, pytree and aux shapes, window lengths) that the machine equals "
+              "the naive loop and terminates. Every terminal state is replayed into the real utilities (python-loop scan and jit) with exact "
+              "integer comparison, and executions recorded from the real utilities (one event per stepper call, logged by the stepper) are "
+              "validated against the machine by TLC (Trace_Rollout). RepeatedStepper/ForcedStepper/build_ic_set are compared with python loops "
+              "over every public stepper class."),
+        note="TLC, dump parser, injectivity of the bookkeeping stepper, jax.disable_jit / ordered debug callbacks for call logging"),
 }
 
 NOT_APPLICABLE = {
@@ -51,12 +61,14 @@ def main():
             "guard": "EXPONAX_VERIF",
             "enable": "EXPONAX_VERIF=1 (set by bin/check); exponax is an editable install of /repo, so checks import the current working tree",
             "baseline_off_cmd": "cd /repo && env -u EXPONAX_VERIF /venv/bin/python -m pytest -ra -q -p no:cacheprovider --timeout=900 --continue-on-collection-errors",
-            "source_commits": [],
+            "source_commits": ["ec819bc"],
             "add_only": True,
         },
         "engines": [
             {"name": "layout", "path": "spec/MC_Layout.tla spec/MC_Fft.tla harness/checks/c04.py", "serves_properties": ["C04"],
              "kind_free_text": "TLC exhaustive tables + spec->code replay"},
+            {"name": "rollout", "path": "spec/MC_Rollout.tla spec/Trace_Rollout.tla harness/checks/c14.py", "serves_properties": ["C14"],
+             "kind_free_text": "TLC state machine + replay + trace validation"},
         ],
         "checks": checks,
         "not_applicable": na,
